@@ -2,7 +2,10 @@
 (***************************************************************************)
 (* L2: the queue protocol of one polling session of the threaded server    *)
 (* (engineio/socket.py poll / send / close, server.py send / disconnect /  *)
-(* the GET and POST paths) at the grain of ONE queue primitive per step.   *)
+(* the GET and POST paths) at the grain of ONE queue primitive per step,   *)
+(* with a further step boundary at the CALL of every put (CPython switches *)
+(* threads at calls: what a task wrote to the shared flags just before a   *)
+(* put is visible to the others before the item is).                       *)
 (*                                                                         *)
 (* EioServer (L1) treats the code between two blocking points as one       *)
 (* atomic block.  Real threads can be switched at any time; the harness's  *)
@@ -39,16 +42,21 @@ VARIABLES
     intable,           \* sid in server.sockets
     ev,                \* disconnect events fired (reasons)
     deliv,             \* packets handed to the client by poll responses, in response order
-    sent,              \* messages accepted by send()
+    sent,              \* messages put on the queue by send()
     kind, pc, pk, it,  \* per task: kind, program counter, packets collected, last item
-    resp               \* per task: what it returned ("none" while running)
-vars == <<q, unf, closing, closed, intable, ev, deliv, sent, kind, pc, pk, it, resp>>
+    resp,              \* per task: what it returned ("none" while running)
+    nx,                \* per task: where it goes on after the put it is about to make
+    alloc,             \* message numbers handed out (a send() gets its number at the call)
+    putord             \* message tokens in the order they were put
+aux == <<nx, alloc, putord>>
+vars == <<q, unf, closing, closed, intable, ev, deliv, sent, kind, pc, pk, it, resp, nx, alloc, putord>>
 
 Init ==
     /\ q = <<>> /\ unf = 0 /\ closing = FALSE /\ closed = FALSE /\ intable = TRUE
     /\ ev = <<>> /\ deliv = <<>> /\ sent = 0
     /\ kind = [p \in Proc |-> "none"] /\ pc = [p \in Proc |-> "idle"]
     /\ pk = [p \in Proc |-> <<>>] /\ it = [p \in Proc |-> NIL] /\ resp = [p \in Proc |-> "none"]
+    /\ nx = [p \in Proc |-> "done"] /\ alloc = 0 /\ putord = <<>>
 
 \* ---- queue primitives (each one atomic, as under queue.Queue's mutex) ----
 Put(x)   == q' = Append(q, x) /\ unf' = unf + 1
@@ -61,10 +69,22 @@ Start(p, k) ==
            ~\E o \in Proc : kind[o] = "poll" /\ pc[o] \notin {"idle", "done"}
     /\ kind' = [kind EXCEPT ![p] = k]
     /\ pc' = [pc EXCEPT ![p] = "begin"]
-    /\ UNCHANGED <<q, unf, closing, closed, intable, ev, deliv, sent, pk, it, resp>>
+    /\ UNCHANGED <<q, unf, closing, closed, intable, ev, deliv, sent, pk, it, resp, aux>>
 
 Ret(p, r) == /\ pc' = [pc EXCEPT ![p] = "done"] /\ resp' = [resp EXCEPT ![p] = r]
 Goto(p, l) == pc' = [pc EXCEPT ![p] = l] /\ UNCHANGED resp
+
+\* the call of queue.put(item): the task is about to put; it goes on at lnext afterwards
+PrePut(p, item, lnext) ==
+    /\ it' = [it EXCEPT ![p] = item] /\ nx' = [nx EXCEPT ![p] = lnext] /\ Goto(p, "put")
+\* the put takes effect
+DoPut(p) ==
+    /\ pc[p] = "put"
+    /\ Put(it[p])
+    /\ Goto(p, nx[p])
+    /\ putord' = IF IsMsgTok(it[p]) THEN Append(putord, it[p]) ELSE putord
+    /\ sent' = IF IsMsgTok(it[p]) THEN sent + 1 ELSE sent
+    /\ UNCHANGED <<closing, closed, intable, ev, deliv, kind, pk, it, nx, alloc>>
 
 \* _get_socket(): KeyError for an unknown or closed session (a closed one is reaped)
 Refused == ~intable \/ closed
@@ -76,7 +96,7 @@ PollEnter(p) ==
     /\ kind[p] = "poll" /\ pc[p] = "begin"
     /\ IF Refused THEN ReapOnLookup /\ Ret(p, "400")
        ELSE Goto(p, "wait") /\ UNCHANGED intable
-    /\ UNCHANGED <<q, unf, closing, closed, ev, deliv, sent, kind, pk, it>>
+    /\ UNCHANGED <<q, unf, closing, closed, ev, deliv, sent, kind, pk, it, aux>>
 \* queue.get() returns an item [blocks while the queue is empty]; the session may have been
 \* closed in the meantime
 PollGet(p) ==
@@ -84,20 +104,20 @@ PollGet(p) ==
     /\ q # <<>>
     /\ it' = [it EXCEPT ![p] = Head(q)] /\ q' = Tail(q)
     /\ Goto(p, "td1")
-    /\ UNCHANGED <<unf, closing, closed, intable, ev, deliv, sent, kind, pk>>
+    /\ UNCHANGED <<unf, closing, closed, intable, ev, deliv, sent, kind, pk, aux>>
 PollTd1(p) ==
     /\ kind[p] = "poll" /\ pc[p] = "td1"
     /\ TaskDone
     /\ pk' = [pk EXCEPT ![p] = IF it[p] = NIL THEN <<>> ELSE <<it[p]>>]
     /\ Goto(p, IF it[p] = NIL THEN "respond" ELSE "more")
-    /\ UNCHANGED <<closing, closed, intable, ev, deliv, sent, kind, it>>
+    /\ UNCHANGED <<closing, closed, intable, ev, deliv, sent, kind, it, aux>>
 \* the response leaves, then server.py drops the session from the table if it is closed
 PollRespond(p) ==
     /\ kind[p] = "poll" /\ pc[p] = "respond"
     /\ deliv' = deliv \o pk[p]
     /\ intable' = (intable /\ ~closed)
     /\ Ret(p, "200")
-    /\ UNCHANGED <<q, unf, closing, closed, ev, sent, kind, pk, it>>
+    /\ UNCHANGED <<q, unf, closing, closed, ev, sent, kind, pk, it, aux>>
 \* while len(packets) < cap: queue.get(block=False)
 PollMore(p) ==
     /\ kind[p] = "poll" /\ pc[p] = "more"
@@ -110,32 +130,31 @@ PollMore(p) ==
        ELSE /\ it' = [it EXCEPT ![p] = Head(q)] /\ q' = Tail(q)
             /\ Goto(p, "td2")
             /\ UNCHANGED <<deliv, intable>>
-    /\ UNCHANGED <<unf, closing, closed, ev, sent, kind, pk>>
+    /\ UNCHANGED <<unf, closing, closed, ev, sent, kind, pk, aux>>
+\* task_done(); a sentinel met while draining is put back for whoever comes next
 PollTd2(p) ==
     /\ kind[p] = "poll" /\ pc[p] = "td2"
     /\ TaskDone
-    /\ IF it[p] = NIL THEN Goto(p, "reput") /\ UNCHANGED pk
+    /\ IF it[p] = NIL
+       THEN Goto(p, "reput") /\ UNCHANGED pk
        ELSE pk' = [pk EXCEPT ![p] = Append(@, it[p])] /\ Goto(p, "more")
-    /\ UNCHANGED <<closing, closed, intable, ev, deliv, sent, kind, it>>
-\* the sentinel met while draining is put back for whoever comes next
+    /\ UNCHANGED <<closing, closed, intable, ev, deliv, sent, kind, it, aux>>
+\* the call of put(None)
 PollReput(p) ==
     /\ kind[p] = "poll" /\ pc[p] = "reput"
-    /\ Put(NIL)
-    /\ Goto(p, "respond")
-    /\ UNCHANGED <<closing, closed, intable, ev, deliv, sent, kind, pk, it>>
+    /\ PrePut(p, NIL, "respond")
+    /\ UNCHANGED <<q, unf, closing, closed, intable, ev, deliv, sent, kind, pk, alloc, putord>>
 
-(* ---- Socket.close(): step 1 = test-and-set closing, disconnect event, put(CLOSE) unless
-   abort; step 2 = closed = True, put(None).  When the session is already closing or closed,
-   close() does nothing and the caller goes on without any primitive. ---- *)
+(* ---- Socket.close(): test-and-set closing + disconnect event, then the call of put(CLOSE)
+   (unless abort); after that put: closed = True, then the call of put(None).  When the
+   session is already closing or closed, close() does nothing. ---- *)
 CloseEnter(p, reason, lputnil) ==
     /\ closing' = TRUE
     /\ ev' = Append(ev, reason)
-    /\ Put("CLOSE")
-    /\ Goto(p, lputnil)
+    /\ PrePut(p, "CLOSE", lputnil)
 ClosePutNil(p, lnext) ==
     /\ closed' = TRUE
-    /\ Put(NIL)
-    /\ Goto(p, lnext)
+    /\ PrePut(p, NIL, lnext)
 
 (* ---- GET whose queue.get() times out: handle_get_request closes with "transport error",
    then the EngineIOError branch of handle_request calls disconnect(sid), which finds close()
@@ -144,75 +163,75 @@ TimeoutBegin(p) ==
     /\ Timeouts /\ kind[p] = "poll" /\ pc[p] = "wait"
     /\ q = <<>>                                      \* nothing came: QueueEmpty
     /\ IF closing \/ closed
-       THEN /\ intable' = FALSE /\ Ret(p, "400") /\ UNCHANGED <<q, unf, closing, ev>>
+       THEN /\ intable' = FALSE /\ Ret(p, "400") /\ UNCHANGED <<closing, ev, it, nx>>
        ELSE /\ CloseEnter(p, "terror", "t_nil") /\ UNCHANGED intable
-    /\ UNCHANGED <<closed, deliv, sent, kind, pk, it>>
+    /\ UNCHANGED <<q, unf, closed, deliv, sent, kind, pk, alloc, putord>>
 TimeoutNil(p) ==
     /\ kind[p] = "poll" /\ pc[p] = "t_nil"
     /\ ClosePutNil(p, "t_end")
-    /\ UNCHANGED <<closing, intable, ev, deliv, sent, kind, pk, it, resp>>
+    /\ UNCHANGED <<q, unf, closing, intable, ev, deliv, sent, kind, pk, alloc, putord>>
 TimeoutEnd(p) ==
     /\ kind[p] = "poll" /\ pc[p] = "t_end"
     /\ intable' = FALSE /\ Ret(p, "400")
-    /\ UNCHANGED <<q, unf, closing, closed, ev, deliv, sent, kind, pk, it>>
+    /\ UNCHANGED <<q, unf, closing, closed, ev, deliv, sent, kind, pk, it, aux>>
 
 (* ---- POST carrying CLOSE: receive() -> close(wait=False, abort=True) ---- *)
 PostCloseBegin(p) ==
     /\ kind[p] = "postclose" /\ pc[p] = "begin"
     /\ IF Refused
-       THEN /\ ReapOnLookup /\ Ret(p, "400") /\ UNCHANGED <<q, unf, closing, closed, ev>>
+       THEN /\ ReapOnLookup /\ Ret(p, "400") /\ UNCHANGED <<closing, closed, ev, it, nx>>
        ELSE IF closing
-       THEN /\ Ret(p, "200") /\ UNCHANGED <<q, unf, closing, closed, ev, intable>>
-       ELSE \* abort: no CLOSE packet, so the whole of close() has one primitive: put(None)
-            /\ closing' = TRUE /\ ev' = Append(ev, "client")
-            /\ closed' = TRUE /\ Put(NIL)
-            /\ Goto(p, "pc_end") /\ UNCHANGED intable
-    /\ UNCHANGED <<deliv, sent, kind, pk, it>>
+       THEN /\ Ret(p, "200") /\ UNCHANGED <<closing, closed, ev, intable, it, nx>>
+       ELSE \* abort: no CLOSE packet; flags, event, then the call of put(None)
+            /\ closing' = TRUE /\ ev' = Append(ev, "client") /\ closed' = TRUE
+            /\ PrePut(p, NIL, "pc_end") /\ UNCHANGED intable
+    /\ UNCHANGED <<q, unf, deliv, sent, kind, pk, alloc, putord>>
 PostCloseEnd(p) ==
     /\ kind[p] = "postclose" /\ pc[p] = "pc_end"
     /\ Ret(p, "200")
-    /\ UNCHANGED <<q, unf, closing, closed, intable, ev, deliv, sent, kind, pk, it>>
+    /\ UNCHANGED <<q, unf, closing, closed, intable, ev, deliv, sent, kind, pk, it, aux>>
 
-(* ---- server.send(sid, data) ---- *)
+(* ---- server.send(sid, data): the message gets its number at the call ---- *)
 SendBegin(p) ==
     /\ kind[p] = "send" /\ pc[p] = "begin"
-    /\ IF Refused \/ sent >= MaxMsg
-       THEN /\ ReapOnLookup /\ Ret(p, "noop") /\ UNCHANGED <<q, unf, sent>>
-       ELSE /\ Put(Msg(sent + 1)) /\ sent' = sent + 1
-            /\ Goto(p, "s_end") /\ UNCHANGED intable
-    /\ UNCHANGED <<closing, closed, ev, deliv, kind, pk, it>>
+    /\ IF Refused \/ alloc >= MaxMsg
+       THEN /\ ReapOnLookup /\ Ret(p, "noop") /\ UNCHANGED <<it, nx, alloc>>
+       ELSE /\ alloc' = alloc + 1
+            /\ PrePut(p, Msg(alloc + 1), "s_end") /\ UNCHANGED intable
+    /\ UNCHANGED <<q, unf, closing, closed, ev, deliv, sent, kind, pk, putord>>
 SendEnd(p) ==
     /\ kind[p] = "send" /\ pc[p] = "s_end"
     /\ Ret(p, "ok")
-    /\ UNCHANGED <<q, unf, closing, closed, intable, ev, deliv, sent, kind, pk, it>>
+    /\ UNCHANGED <<q, unf, closing, closed, intable, ev, deliv, sent, kind, pk, it, aux>>
 
 (* ---- server.disconnect(sid): close(wait=True), then del ---- *)
 DiscBegin(p) ==
     /\ kind[p] = "disc" /\ pc[p] = "begin"
     /\ IF Refused
-       THEN /\ ReapOnLookup /\ Ret(p, "ok") /\ UNCHANGED <<q, unf, closing, ev>>
+       THEN /\ ReapOnLookup /\ Ret(p, "ok") /\ UNCHANGED <<closing, ev, it, nx>>
        ELSE IF closing
        THEN \* close() is a no-op; `del self.sockets[sid]`
-            /\ intable' = FALSE /\ Ret(p, "ok") /\ UNCHANGED <<q, unf, closing, ev>>
+            /\ intable' = FALSE /\ Ret(p, "ok") /\ UNCHANGED <<closing, ev, it, nx>>
        ELSE /\ CloseEnter(p, "server", "d_nil") /\ UNCHANGED intable
-    /\ UNCHANGED <<closed, deliv, sent, kind, pk, it>>
+    /\ UNCHANGED <<q, unf, closed, deliv, sent, kind, pk, alloc, putord>>
 DiscNil(p) ==
     /\ kind[p] = "disc" /\ pc[p] = "d_nil"
     /\ ClosePutNil(p, "d_join")
-    /\ UNCHANGED <<closing, intable, ev, deliv, sent, kind, pk, it, resp>>
+    /\ UNCHANGED <<q, unf, closing, intable, ev, deliv, sent, kind, pk, alloc, putord>>
 \* queue.join(): returns when the joining thread finds the counter at zero
 DiscJoin(p) ==
     /\ kind[p] = "disc" /\ pc[p] = "d_join"
     /\ unf = 0
     /\ Goto(p, "d_del")
-    /\ UNCHANGED <<q, unf, closing, closed, intable, ev, deliv, sent, kind, pk, it>>
+    /\ UNCHANGED <<q, unf, closing, closed, intable, ev, deliv, sent, kind, pk, it, aux>>
 DiscDel(p) ==
     /\ kind[p] = "disc" /\ pc[p] = "d_del"
     /\ intable' = FALSE
     /\ Ret(p, "ok")
-    /\ UNCHANGED <<q, unf, closing, closed, ev, deliv, sent, kind, pk, it>>
+    /\ UNCHANGED <<q, unf, closing, closed, ev, deliv, sent, kind, pk, it, aux>>
 
 Step(p) ==
+    \/ DoPut(p)
     \/ PollEnter(p) \/ PollGet(p) \/ PollTd1(p) \/ PollRespond(p) \/ PollMore(p) \/ PollTd2(p) \/ PollReput(p)
     \/ TimeoutBegin(p) \/ TimeoutNil(p) \/ TimeoutEnd(p)
     \/ PostCloseBegin(p) \/ PostCloseEnd(p)
@@ -225,7 +244,7 @@ FairSpec == Spec /\ \A p \in Proc : WF_vars(Step(p))
 
 -----------------------------------------------------------------------------
 TypeOK == /\ unf \in Nat /\ Len(q) <= unf
-          /\ \A p \in Proc : pc[p] \in {"idle", "begin", "wait", "td1", "respond", "more", "td2", "reput",
+          /\ \A p \in Proc : pc[p] \in {"idle", "begin", "wait", "td1", "respond", "more", "td2", "reput", "put",
                                          "t_nil", "t_end", "pc_end", "s_end", "d_nil", "d_join",
                                          "d_del", "done"}
 \* C05 at this grain: at most one disconnect event, whatever the interleaving; a closed session
@@ -238,16 +257,16 @@ MsgsOf(sq) == SelectSeq(sq, IsMsgTok)
 RECURSIVE Held(_)
 Held(S) == IF S = {} THEN <<>>
            ELSE LET p == CHOOSE x \in S : TRUE
-                IN (IF pc[p] \in {"td1", "td2"} /\ IsMsgTok(it[p]) THEN <<it[p]>> ELSE <<>>)
-                   \o (IF pc[p] # "done" THEN MsgsOf(pk[p]) ELSE <<>>) \o Held(S \ {p})
+                IN (IF pc[p] # "done" /\ pc[p] # "td1" THEN MsgsOf(pk[p]) ELSE <<>>)
+                   \o (IF pc[p] \in {"td1", "td2"} /\ IsMsgTok(it[p]) THEN <<it[p]>> ELSE <<>>)
+                   \o Held(S \ {p})
 Everywhere == MsgsOf(deliv) \o Held(Proc) \o MsgsOf(q)
 NoLossNoDup ==
-    /\ Len(Everywhere) = sent
-    /\ \A n \in 1..sent : \E i \in 1..Len(Everywhere) : Everywhere[i] = Msg(n)
-\* with one GET outstanding at a time the client gets the messages in sending order
-DeliveredInOrder ==
-    SerialPolls => \A i, j \in 1..Len(MsgsOf(deliv)) : i < j =>
-        \E a, b \in 1..sent : a < b /\ MsgsOf(deliv)[i] = Msg(a) /\ MsgsOf(deliv)[j] = Msg(b)
+    /\ Len(Everywhere) = Len(putord) /\ Len(putord) = sent
+    /\ \A i \in 1..Len(putord) : \E j \in 1..Len(Everywhere) : Everywhere[j] = putord[i]
+    /\ \A i, j \in 1..Len(putord) : putord[i] = putord[j] => i = j
+\* with one GET outstanding at a time the client gets the messages in the order they were queued
+DeliveredInOrder == SerialPolls => Everywhere = putord
 \* the counter never goes negative and counts what is queued or being handed over
 CounterSound == unf >= Len(q)
 \* liveness (expected to FAIL: finding F6): disconnect(sid) returns
